@@ -1,7 +1,8 @@
 // hC16: correspondence harness for property C16 (a scenario means the same in HCL and in YAML).
 //
 // Case line:   scn <tree>          (and `loc <blocks> <body>`: the locals stage, see locals.go; `ext <name> <how> <tree>`:
-//                                  format selection by the file name, see genExt)
+//                                  format selection by the file name, see genExt; `prv <h|g> <tree>`: the ammo of
+//                                  the providers, see prv.go)
 // <tree> is the scenario description as a generic value tree with the DOCUMENTED keys
 // (variable_sources/requests/calls/scenarios, name, type, file, ..., see docs/eng/scenario-*.md), in the token
 // syntax of harness/internal/a16schema/value.go.  The harness prints it as YAML and as HCL (plain, and a variant
@@ -951,6 +952,10 @@ func gen(r *vh.Rand, tier string) []string {
 	for i := 0; i < n; i++ {
 		out = append(out, "scn "+genDesc(r, 1+i%4).Token())
 	}
+	// the ammo of the providers (prv.go)
+	for i := 0; i < n/3; i++ {
+		out = append(out, genPrv(r))
+	}
 	// format selection by the file name
 	for i := 0; i < n/5; i++ {
 		out = append(out, genExt(r))
@@ -1113,6 +1118,10 @@ func run(cases []string) []string {
 		}
 		if f[0] == "ext" {
 			out = append(out, rn.runExt(f))
+			continue
+		}
+		if f[0] == "prv" {
+			out = append(out, rn.runPrv(f, i))
 			continue
 		}
 		if len(f) != 2 || f[0] != "scn" {
